@@ -10,6 +10,7 @@ import (
 	"math/big"
 	"math/rand"
 	"sort"
+	"strings"
 	"testing"
 
 	"github.com/NethermindEth/juno/core/crypto"
@@ -117,7 +118,17 @@ type proofInput struct {
 
 // ------------------------------------------------------------------ real tries for one key/value set
 
+// keptProof is a proof the real Prove handed back, with its rendering at return time: it must not change
+// under later calls on the same trie (pooled nodes, shared buffers).
+type keptProof struct {
+	impl   string
+	snap   string
+	render func() string
+}
+
 type builtTries struct {
+	kept   []keptProof
+	pres   []presKV
 	leg    *trie.Trie
 	t2     *trie2.Trie // built in memory, hashed or not
 	t2db   *t2Drv      // committed and reopened from the database (what the RPC proves on)
@@ -126,7 +137,7 @@ type builtTries struct {
 }
 
 func buildTries(v *variant, pres []presKV, cached bool) (*builtTries, error) {
-	b := &builtTries{cached: cached}
+	b := &builtTries{cached: cached, pres: pres}
 	ld, err := newLegacy(v)
 	if err != nil {
 		return nil, err
@@ -352,6 +363,17 @@ func runMembership(v *variant, maxv int, bt *builtTries, a pAction, shape []pSha
 			return got, "", err
 		}
 		keys, nodes := ps.Keys(), ps.List()
+		if a.Tm.Op == "none" {
+			render := func() string {
+				var sb strings.Builder
+				ks, ns := ps.Keys(), ps.List()
+				for i := range ns {
+					sb.WriteString(ks[i].String() + "=" + ns[i].String() + ";")
+				}
+				return sb.String()
+			}
+			bt.kept = append(bt.kept, keptProof{"legacy", render(), render})
+		}
 		mp, se := mapShape(len(nodes), func(i int) string {
 			if _, ok := nodes[i].(*trie.Edge); ok {
 				return "edge"
@@ -418,6 +440,17 @@ func runMembership(v *variant, maxv int, bt *builtTries, a pAction, shape []pSha
 		return got, "", err
 	}
 	keys, nodes := ps.Keys(), ps.List()
+	if a.Tm.Op == "none" {
+		render := func() string {
+			var sb strings.Builder
+			ks, ns := ps.Keys(), ps.List()
+			for i := range ns {
+				sb.WriteString(ks[i].String() + "=" + ns[i].String() + ";")
+			}
+			return sb.String()
+		}
+		bt.kept = append(bt.kept, keptProof{"trie2", render(), render})
+	}
 	mp, se := mapShape(len(nodes), func(i int) string {
 		if _, ok := nodes[i].(*trienode.EdgeNode); ok {
 			return "edge"
@@ -651,6 +684,7 @@ func TestProofReplay(t *testing.T) {
 	}
 	out := vh.NewResult()
 	defer out.Write()
+	defer guard(out, "TestProofReplay", nil)
 	counts := map[string]int{}
 	for bi, beh := range in.Behaviours {
 		vs := in.Variants
@@ -664,7 +698,7 @@ func TestProofReplay(t *testing.T) {
 			v := vs[vi]
 			cache := map[string]*builtTries{}
 			report := func(si int, key, what string, exp, obs any) {
-				out.Diverge(vh.Divergence{Key: key, What: what, Step: si, Expected: exp, Observed: obs,
+				diverge(out, vh.Divergence{Key: key, What: what, Step: si, Expected: exp, Observed: obs,
 					Input: proofInput{H: in.H, MaxV: in.MaxV, Behaviours: [][]pStep{append(append([]pStep{}, beh[:0]...), beh[si])}, Variants: []variant{v}}})
 			}
 			for si, s := range beh {
@@ -793,6 +827,22 @@ func TestProofReplay(t *testing.T) {
 							counts["left-edge-aliased-rejected-"+impl]++
 						}
 						_ = pi
+					}
+				}
+			}
+			// retained proofs: unchanged after all the later Prove / GetRangeProof / Get calls on the same tries
+			for _, bt := range cache {
+				for _, kv := range bt.pres {
+					_, _ = bt.leg.Get(v.key(kv.K)) // churn the legacy node pool
+				}
+				for _, kp := range bt.kept {
+					counts["retained-proofs-rechecked"]++
+					if now := kp.render(); now != kp.snap {
+						diverge(out, vh.Divergence{Key: "proof-alias:" + kp.impl + ":proof-changed-after-later-calls",
+							What:     "a proof returned by Prove changed its content under later calls on the same trie (it aliases pooled / shared storage)",
+							Expected: kp.snap, Observed: now,
+							Input: proofInput{H: in.H, MaxV: in.MaxV, Behaviours: [][]pStep{beh}, Variants: []variant{v}}})
+						break
 					}
 				}
 			}
